@@ -1707,6 +1707,13 @@ def cli_flag(kind):
             v = st.draws[key]
         elif kind == 'string':
             v = z3.String(key)
+            dflt = getattr(args[0], 'flag_defaults', {}).get(name)
+            if dflt is not None:
+                # the flag may be absent from the command line: then its declared default Value applies
+                present = z3.Bool('flagset:' + name)
+                st.draws['flagset:' + name] = present
+                st.draws[key + ':given'] = v
+                v = z3.If(present, v, z3.StringVal(dflt))
         elif kind == 'bool':
             v = z3.Bool(key)
         else:
